@@ -333,9 +333,13 @@ int (*div_array[])(void *, number, int) = { idiv, ddiv, zdiv };
 static int mtx_irem(void *dest, number a, int n) {
   if (a.i==0) PY_ERR_INT(PyExc_ZeroDivisionError, "division by zero");
   int i;
-  for (i=0; i<n; i++)
+  for (i=0; i<n; i++) {
     /* LONG_MIN % -1 overflows (SIGFPE); the remainder is zero */
-    ((int_t *)dest)[i] = (a.i == -1 ? 0 : ((int_t *)dest)[i] % a.i);
+    int_t r = (a.i == -1 ? 0 : ((int_t *)dest)[i] % a.i);
+    /* Python convention (as in mtx_drem): the sign of the divisor */
+    if (r != 0 && ((r < 0) != (a.i < 0))) r += a.i;
+    ((int_t *)dest)[i] = r;
+  }
 
   return 0;
 }
